@@ -786,13 +786,16 @@ enum ROp {
     NextRefNow,
     /// poll next() once (marks the value observed if it is Ready)
     PollNext,
+    /// poll next_ref() once (two lock acquisitions inside one call: wait for the
+    /// version, then hand out the guard and mark what it shows)
+    PollNextRef,
     /// get(): never marks
     Get,
     /// read(): never marks
     Read,
 }
 
-const ROPS: [ROp; 5] = [ROp::NextNow, ROp::NextRefNow, ROp::PollNext, ROp::Get, ROp::Read];
+const ROPS: [ROp; 6] = [ROp::NextNow, ROp::NextRefNow, ROp::PollNext, ROp::PollNextRef, ROp::Get, ROp::Read];
 
 /// Thread A increments the value `incs` times (values are distinct, so a value
 /// identifies its version); thread B owns a subscriber and runs `rops`. The
@@ -820,6 +823,16 @@ fn reader_program(incs: u32, rops: Vec<ROp>) {
                 }
                 ROp::PollNext => {
                     if let Poll::Ready(Some(v)) = poll_once(sub.next()) {
+                        seen.push(v);
+                        marked = v;
+                    }
+                }
+                ROp::PollNextRef => {
+                    let got = match poll_once(sub.next_ref()) {
+                        Poll::Ready(Some(g)) => Some(*g),
+                        _ => None,
+                    };
+                    if let Some(v) = got {
                         seen.push(v);
                         marked = v;
                     }
